@@ -375,7 +375,7 @@ def gen_head(rng):
         else:
             kids.append(E("base", [("href", rand_text(rng, 6))]))
         maybe_ws()
-    return E("head", [], kids)
+    return E("head", rand_attrs(rng, "head") if rng.random() < 0.12 else [], kids)
 
 
 def gen_document(rng, depth=3, doctype=True):
